@@ -285,7 +285,10 @@ func LiveMPD(a *asset, mpdName string, cfg *ResponseConfig, drmCfg *drm.DrmConfi
 			if err != nil {
 				return nil, fmt.Errorf("adjustASForSegmentNumber: %w", err)
 			}
-			mpd.PublishTime = mpd.AvailabilityStartTime
+			if cfg.liveMPDType() == segmentNumber {
+				// An image AdaptationSet always uses $Number$; it must not reset the publishTime of a timeline MPD.
+				mpd.PublishTime = mpd.AvailabilityStartTime
+			}
 		default:
 			return nil, fmt.Errorf("unknown mpd type")
 		}
